@@ -20,6 +20,7 @@ EQUIV_DEPS = {
     'Equiv_guards': ['Gen_util_guards'],
     'Equiv_zmat': ['Gen_zmatrix_py'],
     'Equiv_loops': ['Gen_propagator_loops'],
+    'Equiv_trev': ['Gen_trev_phases'],
     'Equiv_addr': ['Gen_zmatrix_py', 'Gen_address_py'],
     'Equiv_ctors': ['Gen_control_ctors'],
     'Equiv_sorts': ['Gen_util_sorts'],
@@ -289,6 +290,10 @@ def run_check(pid, tier, seed, replay=None):
     }
     if hasattr(mod, 'extra_coverage'):
         cov.update(mod.extra_coverage())
+    census = core.read_census()
+    if census:
+        cov['compiled_entry_points_called'] = {k: v for k, v in sorted(census.items()) if v}
+        cov['compiled_entry_points_not_called'] = sorted(k for k, v in census.items() if not v)
     core.write_evidence(pid, tier, seed, cov, time.time() - t0, len(violations),
                         getattr(mod, 'ASSUMPTIONS', []))
     print('%s: %d theorem(s) checked (%d/%d discharged), %d evaluations, %d distinct non-trivial, %d violation(s), %d known finding(s), %.0fs' % (
